@@ -207,7 +207,15 @@ def lmap_s(risky=False):
     return st.tuples(
         ordered_subdict({k: text for k in R.TEXT_KEYS}),
         st.lists(st.tuples(compid_s(risky, min_size=1), textc_s), max_size=2),
-    ).map(lambda t: {**t[0], **{json.dumps(c): v for c, v in t[1]}})
+        st.randoms(use_true_random=False),
+    ).map(_interleave)
+
+
+def _interleave(t):
+    """Text keys and per-component entries of a language map in arbitrary relative order (description order is the wire order)."""
+    items = list(t[0].items()) + [(json.dumps(c), v) for c, v in t[1]]
+    t[2].shuffle(items)
+    return dict(items)
 
 
 def textmap_s(risky=False):
